@@ -59,7 +59,7 @@ META = {
     "design_ref": "DESIGN.md §3 C04",
 }
 
-MODS = ["J2O.Props.C04"]
+MODS = ["J2O.Props.C04", "J2O.Lemmas.C04"]
 LATTICE = (1, 2, 3, 5, 7)
 
 
@@ -187,7 +187,9 @@ class Instr:
     def _sess(self, ctx: Any) -> dict:
         k = id(ctx)
         if k not in self.sessions:
-            init = [[key, self.names.of(o.value), int(o.axis)] for key, o in ctx._sym_origin_str.items()]
+            init = [[key, self.names.of(o.value), int(o.axis),
+                     ser_expr(self.expr_of_key[key]) if key in self.expr_of_key else None]
+                    for key, o in ctx._sym_origin_str.items()]
             self.sessions[k] = {"ctx": ctx, "events": [{"ev": "init", "table": init}] if init else [],
                                 "real_trees": [], "live": []}
             self.order.append(k)
@@ -232,7 +234,9 @@ class Instr:
             s = me._sess(ctx)
             me._orig_rec(ctx, dim, value, axis)
             ent = me._dim_entry(dim, axis)
-            s["events"].append({"ev": "bind", "v": me.names.of(value), "dims": [ent]})
+            prod = value.producer()
+            s["events"].append({"ev": "bind", "v": me.names.of(value), "dims": [ent],
+                                "producer": prod.op_type if prod is not None else "graph_input"})
             # premise of origin_sound, static part: the value's own annotation at that axis
             if ent[0] is not None:
                 try:
@@ -506,7 +510,54 @@ def corpus_programs(rng: common.Rng) -> list[Prog]:
 
     P.append(Prog("arange_witness_cachekey", arange_ck, [("B",)], ["B"], std_inputs([("B",)]),
                   ref=lambda x: np.arange(x.shape[0] * x.shape[0] + 2 * x.shape[0]), kind="template"))
+    P += scoped_programs()
     return P
+
+
+_SCOPED: list = []
+
+
+def scoped_programs() -> list[Prog]:
+    """Dimension arithmetic inside an ONNX function scope and inside Loop bodies (child contexts:
+    `FunctionScope.begin` re-binds origins to the function inputs, control-flow bodies inherit them)."""
+    if _SCOPED:
+        return list(_SCOPED)
+    import jax.numpy as jnp
+    from jax import lax
+    from jax._src import core as jc
+    from jax2onnx import onnx_function
+
+    def dimval(e, like):
+        return jnp.asarray(jc.dimension_as_value(e)).astype(like.dtype)
+
+    @onnx_function
+    def verif_c04_inner(x):
+        return x.reshape((x.shape[0] * x.shape[1],)) * dimval(x.shape[1] * 3 + x.shape[0], x)
+
+    # the function plugin patches `getattr(module, fn.__name__)`: it must be a module attribute
+    # (a function that is not one leaves every later export failing — C13's finding, not ours)
+    verif_c04_inner.__qualname__ = "verif_c04_inner"
+    globals()["verif_c04_inner"] = verif_c04_inner
+
+    def fn_scope(x):
+        return globals()["verif_c04_inner"](x * 2.0) + 1.0
+
+    def fori_body_dims(x, y):
+        def body(i, c):
+            return c + dimval(x.shape[0] * 2 + y.shape[0], c)
+        return lax.fori_loop(0, 3, body, jnp.zeros((), jnp.float32)) + x.sum() + y.sum()
+
+    def scan_body_dims(x, y):
+        def step(c, row):
+            return c + row.sum() * (x.shape[0] + 10 * y.shape[1]), row * 2
+        c, ys = lax.scan(step, jnp.zeros((), jnp.float32), y)
+        return c + x.sum(), ys
+
+    for name, f, specs, syms in [("fn_scope_dims", fn_scope, [("B", "N")], ["B", "N"]),
+                                 ("fori_body_dims", fori_body_dims, [("B",), ("N",)], ["B", "N"]),
+                                 ("scan_body_dims", scan_body_dims, [("B",), (3, "N")], ["B", "N"])]:
+        _SCOPED.append(Prog(name, f, specs, syms, std_inputs(specs), kind="scoped"))
+    return list(_SCOPED)
 
 
 def random_programs(rng: common.Rng, n: int) -> list[Prog]:
@@ -534,17 +585,23 @@ def lattice(k: int, limit: Optional[int] = None, rng: Optional[common.Rng] = Non
 def ort_session(model):
     import onnxruntime as ort
     so = ort.SessionOptions()
-    so.log_severity_level = 3
+    so.log_severity_level = 4
+    so.intra_op_num_threads = 1
+    so.inter_op_num_threads = 1
     so.graph_optimization_level = ort.GraphOptimizationLevel.ORT_DISABLE_ALL
     return ort.InferenceSession(model.SerializeToString(), so, providers=["CPUExecutionProvider"])
 
 
-def run_ort_prog(sess, prog: Prog, binding: dict):
-    xs = prog.make_inputs(binding)
+def feeds_for(sess, prog: Prog, xs: list) -> dict:
     feeds = {}
     for i, (inp, x) in enumerate(zip(sess.get_inputs(), xs)):
         feeds[inp.name] = np.ascontiguousarray(x.transpose(prog.feed_perm[i])) if i in prog.feed_perm else x
-    return xs, sess.run(None, feeds)
+    return feeds
+
+
+def run_ort_prog(sess, prog: Prog, binding: dict):
+    xs = prog.make_inputs(binding)
+    return xs, sess.run(None, feeds_for(sess, prog, xs))
 
 
 def as_list(r):
@@ -612,21 +669,102 @@ def check_op_semantics(chk: Check) -> None:
     chk.add("traces_validated_against_impl", 5 * len(pairs) + len(pp))
 
 
-def classify_and_report(chk: Check, prog: Prog, text: str, live: Any, binding: dict, memo: int, plain: int,
-                        jaxv: int, ortv: Optional[int], where: str) -> None:
-    """A chain value that differs from the JAX value: decide the class with the theorems."""
-    rep = {"program": prog.name, "expr": text, "dim_expr": str(live), "binding": binding, "lean_memo": memo,
-           "lean_nomemo": plain, "jax": jaxv, "ort": ortv, "where": where,
-           "how": "to_onnx(program, symbolic specs) -> ONNX Runtime at this binding vs the JAX value"}
-    if ortv is not None and ortv != memo:
-        chk.finding({"kind": "ort_differs_from_model", "program": prog.name, "expr": text},
-                    f"ORT value {ortv} of the dim chain differs from the model's {memo} for {text} at {binding}", rep)
+def eval_tree(text: str, shapes: dict) -> Optional[int]:
+    """ONNX meaning of a rendered chain (`Add(S(in_0,0),Mul(..))`) on real run-time shapes;
+    None when a tensor it reads was not observable."""
+    pos = 0
+
+    def parse():
+        nonlocal pos
+        j = pos
+        while j < len(text) and text[j] not in "(,)":
+            j += 1
+        head = text[pos:j]
+        if j >= len(text) or text[j] != "(":
+            pos = j
+            return int(head)
+        pos = j + 1
+        if head == "S":
+            k = text.index(")", pos)
+            name, ax = text[pos:k].rsplit(",", 1)
+            pos = k + 1
+            arr = shapes.get(name)
+            if arr is None or int(ax) >= len(arr):
+                raise KeyError(name)
+            return int(arr[int(ax)])
+        args = []
+        while True:
+            args.append(parse())
+            if text[pos] == ",":
+                pos += 1
+                continue
+            pos += 1
+            break
+        if head == "Add":
+            return args[0] + args[1]
+        if head == "Mul":
+            return args[0] * args[1]
+        if head == "Pow":
+            return args[0] ** args[1]
+        if head == "Div":
+            q = abs(args[0]) // abs(args[1])
+            return q if (args[0] >= 0) == (args[1] >= 0) else -q
+        if head == "Mod":
+            return args[0] % args[1]
+        if head == "Max":
+            return max(args)
+        if head == "Min":
+            return min(args)
+        raise ValueError(head)
+
+    try:
+        return parse()
+    except (KeyError, ValueError, ZeroDivisionError, IndexError):
+        return None
+
+
+class AssumedShapes:
+    """run-time extents of tensors inside nested graphs, taken from what was recorded for them"""
+
+    def __init__(self, ins: "Instr", binding: dict):
+        self.m: dict = {}
+        for s in ins.sessions.values():
+            for e in s["events"]:
+                rows = []
+                if e["ev"] == "bind":
+                    rows = [(e["v"], ax, key) for key, ax, _ in e["dims"]]
+                elif e["ev"] == "scope":
+                    rows = [(e["fin"], ax, key) for key, ax, _ in e["dims"]]
+                elif e["ev"] == "init":
+                    rows = [(r[1], r[2], r[0]) for r in e["table"]]
+                for v, ax, key in rows:
+                    if key in ins.expr_of_key:
+                        self.m.setdefault(v, {})[ax] = int(ins.expr_of_key[key]._evaluate(dict(binding)))
+
+    def get(self, name):
+        d = self.m.get(name)
+        if d is None:
+            return None
+        return [d.get(i, 0) for i in range(max(d) + 1)]
+
+
+def classify_and_report(chk: Check, prog: Prog, live: Any, binding: dict, real: int, memo: int, plain: int,
+                        jaxv: int, chain: str) -> None:
+    """The real chain value differs from the JAX value. If the model predicts exactly this value the
+    theorems decide the class (memo != no-memo: unfaithful key; no-memo != JAX: truncating floordiv);
+    otherwise the deviation is outside the model."""
+    rep = {"program": prog.name, "specs": [list(s) for s in prog.specs], "dim_expr": str(live), "binding": binding,
+           "real_chain": chain, "real_chain_value": real, "lean_memo": memo, "lean_nomemo": plain, "jax": jaxv,
+           "how": "to_onnx(program, symbolic specs); the emitted dimexpr_* chain evaluated on the run-time shapes "
+                  "ONNX Runtime reports at this binding vs the value JAX computes for the dimension"}
+    if real != memo:
+        chk.finding({"kind": "chain_value_unmodelled", "program": prog.name, "dim_expr": str(live), "binding": binding},
+                    f"{prog.name} at {binding}: the emitted chain for {live} evaluates to {real}, JAX computes {jaxv} "
+                    f"(the model of the unchanged code predicts {memo})", rep)
         return
-    reported = False
     if memo != plain:
         items: dict = {}
-        cache_items(live, items)
-        for progl in getattr(prog, "_all_live", []):
+        for progl in [live] + list(getattr(prog, "_all_live", [])):
             cache_items(progl, items)
         coll = {k: v for k, v in items.items() if len(v) > 1}
         kinds = sorted({kd for v in coll.values() for ks in v.values() for kd in ks})
@@ -634,22 +772,53 @@ def classify_and_report(chk: Check, prog: Prog, text: str, live: Any, binding: d
             {kd for ks in v.values() for kd in ks} <= {"factor_power", "term_coeff"} for v in coll.values()) \
             else "other:" + ",".join(kinds)
         rep["colliding_keys"] = {k: {d: sorted(ks) for d, ks in v.items()} for k, v in coll.items()}
-        chk.finding({"kind": "cache_key_collision", "pattern": pattern, "program": prog.name, "expr": text,
+        chk.finding({"kind": "cache_key_collision", "pattern": pattern, "program": prog.name, "dim_expr": str(live),
                      "binding": binding},
-                    f"memoised dim chain gives {memo}, un-memoised {plain}, JAX {jaxv} for {text} at {binding}", rep)
-        reported = True
+                    f"{prog.name} at {binding}: memoised chain for {live} gives {memo}, un-memoised {plain}, JAX {jaxv}", rep)
     if plain != jaxv:
         uns = unsafe_floordivs(live, binding)
         rep["unsafe_floordivs"] = uns
         kind = "floordiv_truncation" if uns else "nomemo_chain_differs_from_jax"
-        chk.finding({"kind": kind, "program": prog.name, "expr": text, "binding": binding},
-                    f"dim chain gives {plain}, JAX {jaxv} for {text} at {binding}", rep)
-        reported = True
-    if not reported:
-        chk.finding({"kind": "chain_differs_from_jax", "program": prog.name, "expr": text}, "unclassified", rep)
+        chk.finding({"kind": kind, "program": prog.name, "dim_expr": str(live), "binding": binding},
+                    f"{prog.name} at {binding}: chain for {live} gives {plain}, JAX {jaxv}", rep)
+
+
+def origin_probe(model, ins: "Instr", sid: int):
+    """A pruned copy of the exported model whose outputs are the run-time shapes of every tensor that
+    was recorded as an origin in the top-level context and still exists in the final graph."""
+    import onnx
+    from onnx import helper, TensorProto
+    s = ins.sessions[sid]
+    recorded = []      # (value name, axis, key, serialised expr, producer op)
+    for e in s["events"]:
+        if e["ev"] != "bind":
+            continue
+        for key, axis, ex in e["dims"]:
+            if key is not None and ex is not None:
+                recorded.append((e["v"], axis, key, e.get("producer", "")))
+    present = {i.name for i in model.graph.input} | {o for n in model.graph.node for o in n.output}
+    names = sorted({r[0] for r in recorded if r[0] in present})
+    if not names:
+        return None, recorded, []
+    m = onnx.ModelProto()
+    m.CopyFrom(model)
+    outs = []
+    for i, nm in enumerate(names):
+        o = f"verif_shape_{i}"
+        m.graph.node.append(helper.make_node("Shape", [nm], [o], name=f"verif_shape_node_{i}"))
+        m.graph.output.append(helper.make_tensor_value_info(o, TensorProto.INT64, [None]))
+        outs.append(o)
+    ex = onnx.utils.Extractor(m)
+    ins_names = [i.name for i in model.graph.input]
+    probes = []
+    for nm, o in zip(names, outs):       # one pruned probe per tensor: a failing node elsewhere does not hide it
+        probes.append((nm, ort_session(ex.extract_model(ins_names, [o]))))
+    return probes, recorded, names
 
 
 def run(chk: Check) -> None:
+    import time
+    import jax
     rng = common.Rng(chk.seed)
     thorough = chk.tier == "thorough"
     proved = chk.prove(MODS, checker=thorough)
@@ -657,41 +826,65 @@ def run(chk: Check) -> None:
 
     progs = corpus_programs(rng) + template_programs() + random_programs(rng, 40 if not thorough else 400)
     stats = {"programs": 0, "not_exportable": 0, "sessions": 0, "calls": 0, "exprs": 0, "tree_equal": 0,
-             "tree_diff_same_value": 0, "table_equal": 0, "ort_runs": 0, "eager_jax_runs": 0,
+             "table_equal": 0, "ort_runs": 0, "ort_errors": 0, "eager_jax_runs": 0,
              "numpy_ref_runs": 0, "eval_shape_checks": 0, "jax_eval_checks": 0, "chain_vs_ort_checks": 0,
-             "static_origin_annotations_checked": 0}
+             "origin_recordings": 0, "origin_runtime_checks": 0, "origins_not_in_final_graph": 0,
+             "chain_value_checks": 0, "model_more_pessimistic_than_code": 0, "chain_drift_same_value": 0}
+    drift: list = []
     not_exportable: list = []
     broken_corr: list = []
     dist: dict = {}
-    import jax
+    timing = {"export": 0.0, "driver": 0.0, "ort": 0.0, "jax": 0.0}
 
+    # ---- phase A: real exports under instrumentation ---------------------------------------
+    t0 = time.time()
+    exported = []
     for prog in progs:
-        k = len(prog.syms)
         try:
             model, ins = export(prog)
         except Exception as e:  # not an exportable program of the generator
             stats["not_exportable"] += 1
-            not_exportable.append({"program": prog.name, "error": f"{type(e).__name__}: {str(e)[:160]}"})
+            not_exportable.append({"program": prog.name, "text": getattr(prog, "text", None),
+                                   "error": f"{type(e).__name__}: {str(e)[:160]}"})
             continue
         stats["programs"] += 1
         dist[prog.kind] = dist.get(prog.kind, 0) + 1
-        full = lattice(k)
-        bindings = [dict(zip(prog.syms, p)) for p in full]
+        exported.append((prog, model, ins))
+    timing["export"] = round(time.time() - t0, 1)
+    if stats["programs"] < 0.8 * len(progs):
+        raise RuntimeError(f"only {stats['programs']} of {len(progs)} generated programs exported; first errors: "
+                           f"{not_exportable[:3]}")
 
-        # ---- H: model replay of every lowering context ---------------------------------
-        reqs, keys = [], []
+    # ---- phase B: one driver run replays every lowering context in the Lean model ------------
+    t0 = time.time()
+    reqs, owner = [], []
+    for pi, (prog, model, ins) in enumerate(exported):
+        full = lattice(len(prog.syms))
         for sid in ins.order:
             s = ins.sessions[sid]
             if not s["events"]:
                 continue
+            evs = [{k: v for k, v in e.items() if k != "producer"} for e in s["events"]]
             reqs.append(json.dumps({"op": "session", "syms": prog.syms, "bindings": [list(p) for p in full],
-                                    "events": s["events"]}))
-            keys.append(sid)
-        answers = [json.loads(a) for a in common.run_driver("C04", reqs)] if reqs else []
+                                    "events": evs}))
+            owner.append((pi, sid))
+    answers = [json.loads(a) for a in common.run_driver("C04", reqs)] if reqs else []
+    per_prog: dict[int, list] = {}
+    for (pi, sid), ans in zip(owner, answers):
+        per_prog.setdefault(pi, []).append((sid, ans))
+    timing["driver"] = round(time.time() - t0, 1)
+
+    # ---- phase C: compare, then ORT vs eager JAX on the lattice ---------------------------------
+    for pi, (prog, model, ins) in enumerate(exported):
+        k = len(prog.syms)
+        full = lattice(k)
+        bindings = [dict(zip(prog.syms, p)) for p in full]
         real_tables = ins.real_tables()
-        prog._all_live = [e for sid in keys for call in ins.sessions[sid]["live"] for e in call]
-        top_call_vals: list = []
-        for sid, ans in zip(keys, answers):
+        sess_ans = per_prog.get(pi, [])
+        prog._all_live = [e for sid, _ in sess_ans for call in ins.sessions[sid]["live"] for e in call]
+        entries: list = []       # one per lowered expression of this export
+        top_sid = ins.order[0] if ins.order else None
+        for sid, ans in sess_ans:
             s = ins.sessions[sid]
             stats["sessions"] += 1
             if "error" in ans:
@@ -705,8 +898,7 @@ def run(chk: Check) -> None:
                                     "real": real_tables[sid]})
             for ci, call in enumerate(ans["calls"]):
                 stats["calls"] += 1
-                real_trees = s["real_trees"][ci]
-                for ei, (mt, rt) in enumerate(zip(call["trees"], real_trees)):
+                for ei, (mt, rt) in enumerate(zip(call["trees"], s["real_trees"][ci])):
                     stats["exprs"] += 1
                     live = s["live"][ci][ei]
                     vals = call["vals"][ei]
@@ -717,103 +909,178 @@ def run(chk: Check) -> None:
                                             "missing": call["missing"]})
                     if mt == rt:
                         stats["tree_equal"] += 1
-                    else:
-                        broken_corr.append({"program": prog.name, "what": "chain", "expr": str(live),
-                                            "model": mt, "real": rt})
-                    # Lean evalJax vs the live JAX evaluator
-                    for b, (memo, plain, jaxv) in zip(bindings, vals):
-                        if not isinstance(live, int):
+                    if not isinstance(live, int):      # Lean evalJax vs the live JAX evaluator
+                        for b, (_memo, _plain, jaxv) in zip(bindings, vals):
                             stats["jax_eval_checks"] += 1
                             lv = int(live._evaluate(dict(b)))
                             if lv != jaxv:
                                 raise RuntimeError(f"Lean evalJax {jaxv} != live _DimExpr._evaluate {lv} for {live} at {b}")
-                    top_call_vals.append((sid == keys[0], live, vals))
-        by_text = {}
-        for (_top, l, v) in top_call_vals:
-            by_text.setdefault(str(l), (l, v))
-        if prog.kind == "dimexpr":
-            from jax import export as jexport
-            sd = jexport.symbolic_shape(", ".join(prog.syms))
-            prog.sym_text = [str(ev_ast(a, list(sd))) for a in prog.asts]
-        stats["static_origin_annotations_checked"] += sum(
-            1 for sid in keys for e in ins.sessions[sid]["events"] if e["ev"] == "bind")
+                    entries.append({"live": live, "vals": vals, "real": rt, "model": mt, "top": sid == top_sid,
+                                    "R": [None] * len(bindings)})
         for mm in ins.static_mismatch:
             chk.finding({"kind": "origin_annotation_mismatch", "program": prog.name, **mm},
                         f"origin recorded for {mm['recorded']} at {mm['value']}[{mm['axis']}] whose annotation is "
                         f"{mm['annotated']}", {"program": prog.name, **mm})
+        by_text: dict = {}
+        for en in entries:
+            by_text.setdefault(str(en["live"]), en)
+        if prog.kind == "dimexpr":
+            from jax import export as jexport
+            sd = jexport.symbolic_shape(", ".join(prog.syms))
+            prog.sym_text = [str(ev_ast(a, list(sd))) for a in prog.asts]
 
-        # ---- search / validation: ORT vs eager JAX on the lattice ------------------------
+        # premise of origin_sound, dynamic part: run-time extent of every recorded origin tensor
+        probes, recorded, probe_names = None, [], []
+        if top_sid is not None:
+            probes, recorded, probe_names = origin_probe(model, ins, top_sid)
+            stats["origin_recordings"] += len(recorded)
+            stats["origins_not_in_final_graph"] += sum(1 for r in recorded if r[0] not in probe_names)
+
         sess = ort_session(model)
         eager_pts = set(range(len(full))) if (prog.kind == "dimexpr" or thorough) else \
             {full.index(p) for p in lattice(k, 7, rng)}
         for bi, b in enumerate(bindings):
-            xs, outs = run_ort_prog(sess, prog, b)
+            t1 = time.time()
+            xs = prog.make_inputs(b)
+            feeds = feeds_for(sess, prog, xs)
+            unsound = []
+            shp: dict = {}
+            if probes:
+                for nm, ps in probes:
+                    try:
+                        shp[nm] = ps.run(None, {i.name: feeds[i.name] for i in ps.get_inputs()})[0]
+                    except Exception:
+                        pass
+                for (v, axis, key, producer) in recorded:
+                    if v not in shp:
+                        continue
+                    stats["origin_runtime_checks"] += 1
+                    want = int(ins.expr_of_key[key]._evaluate(dict(b))) if key in ins.expr_of_key else None
+                    got = int(shp[v][axis]) if axis < len(shp[v]) else None
+                    if want is not None and got != want:
+                        unsound.append({"value": v, "axis": axis, "dim": key, "dim_value": want,
+                                        "runtime_extent": got, "producer": producer})
+            outs, ort_err = None, None
+            try:
+                outs = sess.run(None, feeds)
+            except Exception as e:
+                ort_err = str(e)[-300:]
+                stats["ort_errors"] += 1
             stats["ort_runs"] += 1
+            timing["ort"] += time.time() - t1
+            t1 = time.time()
             exp = None
             if bi in eager_pts:
                 exp = as_list(prog.fn(*xs))
                 stats["eager_jax_runs"] += 1
+                if prog.ref is not None:
+                    stats["numpy_ref_runs"] += 1
+                    if not all(same_result(a, c) for a, c in zip(as_list(prog.ref(*xs)), exp)):
+                        raise RuntimeError(f"numpy reference of template {prog.name} disagrees with eager JAX at {b}")
             elif prog.ref is not None:
                 exp = as_list(prog.ref(*xs))
                 stats["numpy_ref_runs"] += 1
-            if prog.ref is not None and bi in eager_pts:
-                refv = as_list(prog.ref(*xs))
-                stats["numpy_ref_runs"] += 1
-                if not all(same_result(a, c) for a, c in zip(refv, exp)):
-                    raise RuntimeError(f"numpy reference of template {prog.name} disagrees with eager JAX at {b}")
             if prog.kind != "dimexpr":
-                shp = jax.eval_shape(prog.fn, *xs)
+                shp_j = jax.eval_shape(prog.fn, *xs)
                 stats["eval_shape_checks"] += 1
-                shp = [tuple(s.shape) for s in (shp if isinstance(shp, (tuple, list)) else [shp])]
-                exp_shapes = shp
+                exp_shapes = [tuple(s.shape) for s in (shp_j if isinstance(shp_j, (tuple, list)) else [shp_j])]
             else:
                 exp_shapes = [e.shape for e in exp]
+            timing["jax"] += time.time() - t1
             chk.count({"program": prog.name, "binding": b}, nontrivial=len(set(b.values())) > 1 or 1 in b.values())
-            ok_shape = [tuple(o.shape) for o in outs] == [tuple(s) for s in exp_shapes]
-            ok_val = exp is None or (len(exp) == len(outs) and all(same_result(o, e) for o, e in zip(outs, exp)))
-            if prog.kind == "dimexpr":
-                # per expression: chain value (model) vs ORT vs JAX
+
+            if unsound:
+                import re as _re
+                root = unsound[0]           # recordings are chronological: the first false one is the root
+                chk.finding({"kind": "origin_unsound", "root_producer": root["producer"],
+                             "root_value": _re.sub(r"_\d+$", "", root["value"]), "program": prog.name,
+                             "dim": root["dim"], "binding": b},
+                            f"{prog.name} at {b}: {root['value']}[{root['axis']}] ({root['producer']}) is recorded as "
+                            f"the origin of {root['dim']} (= {root['dim_value']}) but has run-time extent "
+                            f"{root['runtime_extent']}",
+                            {"program": prog.name, "binding": b, "specs": [list(s) for s in prog.specs],
+                             "unsound_origins": unsound, "ort_error": ort_err,
+                             "ort_head": None if outs is None else [np.asarray(o).reshape(-1)[:8].tolist() for o in outs],
+                             "jax_head": None if exp is None else [np.asarray(e).reshape(-1)[:8].tolist() for e in exp]})
+
+            # real chain value of every lowered expression at this binding
+            explained = bool(unsound)
+            for en in entries:
+                if isinstance(en["live"], int):
+                    continue
+                memo, plain, jaxv = en["vals"][bi]
+                R = eval_tree(en["real"], shp) if en["top"] else None
+                if R is None:         # nested contexts: extents as recorded (the model's assumption)
+                    R = eval_tree(en["real"], AssumedShapes(ins, b))
+                en["R"][bi] = R
+                stats["chain_value_checks"] += 1
+                if R is None or unsound:
+                    continue
+                if R != jaxv:
+                    explained = True
+                    classify_and_report(chk, prog, en["live"], b, R, memo, plain, jaxv, en["real"])
+                elif memo != jaxv:
+                    stats["model_more_pessimistic_than_code"] += 1
+
+            ok_shape = outs is not None and [tuple(o.shape) for o in outs] == [tuple(s) for s in exp_shapes]
+            ok_val = outs is not None and (exp is None or (len(exp) == len(outs) and
+                                                           all(same_result(o, e) for o, e in zip(outs, exp))))
+            if prog.kind == "dimexpr" and outs is not None:
                 vec = np.asarray(outs[0]).reshape(-1)
                 ev = np.asarray(exp[0]).reshape(-1)
                 for ei in range(len(vec)):
                     ortv, jv = int(vec[ei]), int(ev[ei])
-                    ent = by_text.get(prog.sym_text[ei])
-                    if ent is not None and not isinstance(ent[0], int):
-                        memo, plain, jaxv = ent[1][bi]
+                    en = by_text.get(prog.sym_text[ei])
+                    if en is not None and not isinstance(en["live"], int):
                         stats["chain_vs_ort_checks"] += 1
-                        if jaxv != jv:
-                            raise RuntimeError(f"{prog.name}: Lean evalJax {jaxv} != eager JAX {jv} at {b}")
-                        if ortv != jv or memo != jv:
-                            classify_and_report(chk, prog, prog.text[ei], ent[0], b, memo, plain, jaxv, ortv, "dimexpr")
-                    elif ortv != jv:
+                        if en["vals"][bi][2] != jv:
+                            raise RuntimeError(f"{prog.name}: Lean evalJax {en['vals'][bi][2]} != eager JAX {jv} at {b}")
+                        if en["R"][bi] is not None and en["R"][bi] != ortv and not unsound:
+                            chk.finding({"kind": "dim_as_value_path", "program": prog.name, "expr": prog.text[ei],
+                                         "binding": b},
+                                        f"{prog.name} at {b}: chain value {en['R'][bi]} arrives as {ortv} at the output",
+                                        {"program": prog.name, "expr": prog.text[ei], "binding": b})
+                    elif ortv != jv and not explained:
                         chk.finding({"kind": "dim_value_mismatch", "program": prog.name, "expr": prog.text[ei],
-                                     "binding": b}, f"ORT {ortv} vs JAX {jv}",
+                                     "binding": b}, f"{prog.name}: ORT {ortv} vs JAX {jv} for {prog.text[ei]} at {b}",
                                     {"program": prog.name, "expr": prog.text[ei], "binding": b, "ort": ortv, "jax": jv})
-            elif not (ok_shape and ok_val):
-                # attribute to a dim expression of this export if one of them is off at this binding
-                attributed = False
-                for (top, live, vals) in top_call_vals:
-                    if isinstance(live, int):
-                        continue
-                    memo, plain, jaxv = vals[bi]
-                    if memo != jaxv:
-                        classify_and_report(chk, prog, str(live), live, b, memo, plain, jaxv, None, "template")
-                        attributed = True
-                if not attributed:
-                    chk.finding({"kind": "program_mismatch", "program": prog.name, "binding": b},
-                                f"{prog.name} at {b}: ORT shapes {[tuple(o.shape) for o in outs]} vs JAX {exp_shapes}; "
-                                f"values equal: {ok_val}",
-                                {"program": prog.name, "binding": b, "specs": [list(s) for s in prog.specs],
-                                 "ort_shapes": [list(o.shape) for o in outs], "jax_shapes": [list(s) for s in exp_shapes],
-                                 "ort_head": [np.asarray(o).reshape(-1)[:8].tolist() for o in outs],
-                                 "jax_head": None if exp is None else [np.asarray(e).reshape(-1)[:8].tolist() for e in exp]})
+            if not (ok_shape and ok_val) and not explained:
+                chk.finding({"kind": "program_mismatch", "program": prog.name, "binding": b},
+                            f"{prog.name} at {b}: ORT "
+                            f"{'error ' + ort_err[-120:] if outs is None else [tuple(o.shape) for o in outs]} vs JAX "
+                            f"{exp_shapes}; values equal: {ok_val}",
+                            {"program": prog.name, "binding": b, "specs": [list(s) for s in prog.specs],
+                             "text": getattr(prog, "text", None), "ort_error": ort_err,
+                             "ort_shapes": None if outs is None else [list(o.shape) for o in outs],
+                             "jax_shapes": [list(s) for s in exp_shapes],
+                             "ort_head": None if outs is None else [np.asarray(o).reshape(-1)[:8].tolist() for o in outs],
+                             "jax_head": None if exp is None else [np.asarray(e).reshape(-1)[:8].tolist() for e in exp]})
 
-    chk.add("traces_validated_against_impl", stats["exprs"] + stats["sessions"])
+        # structural drift: a chain that differs from the model's but has the model's value on the whole lattice
+        for en in entries:
+            if en["real"] == en["model"]:
+                continue
+            same = all(r is not None and r == v[0] for r, v in zip(en["R"], en["vals"]))
+            if same:
+                stats["chain_drift_same_value"] += 1
+                drift.append({"program": prog.name, "expr": str(en["live"]), "model": en["model"], "real": en["real"]})
+            else:
+                broken_corr.append({"program": prog.name, "what": "chain", "expr": str(en["live"]),
+                                    "model": en["model"], "real": en["real"],
+                                    "real_values": en["R"][:10], "model_values": [v[0] for v in en["vals"]][:10]})
+
+    timing = {k: round(v, 1) for k, v in timing.items()}
+    chk.add("traces_validated_against_impl", stats["exprs"] + stats["sessions"] + stats["origin_runtime_checks"])
     chk.info("correspondence", stats)
+    chk.info("timing_s", timing)
     chk.info("programs", stats["programs"])
     chk.info("program_kinds", dist)
     chk.info("not_exportable", not_exportable[:20])
+    chk.info("chain_drift_examples", drift[:5])
     chk.info("disagreements_checked", len(broken_corr))
+    chk.log(f"programs={stats['programs']} (not exportable {stats['not_exportable']}) sessions={stats['sessions']} "
+            f"exprs={stats['exprs']} chain-equal={stats['tree_equal']} table-equal={stats['table_equal']} "
+            f"ort_runs={stats['ort_runs']} timing={timing}")
 
     # ---- verdicts for a broken correspondence / obligation without a concrete input ----------
     if broken_corr and not chk.violations:
@@ -829,8 +1096,9 @@ def run(chk: Check) -> None:
         "an ONNX DAG evaluates like its unfolded tree",
         "ONNX Div/Mod/Max/Min/Pow on int64 behave as modelled (compared with ONNX Runtime on [-7,7]^2 each run)",
         "text keys (str of live _DimExpr parts) are taken from the live objects; the model does not derive them",
-        "origin_sound's premise (annotated extent = run-time extent) is C08's subject; checked per recording "
-        "against the value's own annotation and end-to-end by ORT",
+        "origin_sound's premise (annotated extent = run-time extent) is C08's subject; it is checked per recording "
+        "against the value's own annotation and, for every origin tensor that survives into the final graph, "
+        "against its ONNX Runtime shape on the whole lattice",
         "template programs: numpy is the reference on the full lattice, eager JAX on a sub-lattice (quick tier); "
         "numpy = eager JAX is checked where both run; run-time shapes come from jax.eval_shape on every binding",
     ]
